@@ -8,7 +8,7 @@
     the program/mailbox is outside every listed class of Model/SearchClass.v;
     each class has a [c19_refuted_...] witness below. *)
 From Coq Require Import String Ascii List Bool Arith ZArith Sorted.
-From Raven Require Spec.SeqSet.
+From Raven Require Spec.SeqSet Model.CmdTokenizer.
 From Raven Require Import Base.GoStr Model.Search Model.SearchText Spec.Search Model.SearchClass
   Proof.SearchHandler Proof.SearchTok Proof.SearchMain Proof.SearchUid Proof.SearchRefuted Proof.SearchTotal.
 Import ListNotations.
@@ -27,9 +27,8 @@ Print Assumptions c19_search_exact.
 
 (** the same through HandleSearch, on the command line as connection.go splits it *)
 Theorem c19_search_cmd_exact : forall (tag cmd : str) (ks : list key) (mb : list smsg),
-  wf_prog ks = true -> mb_ok mb = true -> classify_line ks mb = None ->
-  str_eqb (to_upper (nth 0 (fields (print_prog ks)) [])) (S_ "CHARSET") = false ->
-  search_cmd (tag :: cmd :: fields (print_prog ks)) (to_msgs mb) = ROk (spec_search_list ks mb).
+  wf_prog ks = true -> mb_ok mb = true -> classify ks mb = None ->
+  search_cmd (tag :: cmd :: Model.CmdTokenizer.split_command_line (print_prog ks)) (to_msgs mb) = ROk (spec_search_list ks mb).
 Proof. exact search_cmd_exact. Qed.
 Print Assumptions c19_search_cmd_exact.
 
@@ -44,9 +43,8 @@ Proof. exact uid_search_exact. Qed.
 Print Assumptions c19_uid_search_exact.
 
 Theorem c19_uid_search_cmd_exact : forall (tag uid cmd : str) (ks : list key) (mb : list smsg),
-  wf_prog ks = true -> mb_ok mb = true -> classify_line ks mb = None ->
-  str_eqb (to_upper (nth 0 (fields (print_prog ks)) [])) (S_ "CHARSET") = false ->
-  uid_search_cmd (tag :: uid :: cmd :: fields (print_prog ks)) (to_msgs mb) = ROk (spec_uid_search_list ks mb).
+  wf_prog ks = true -> mb_ok mb = true -> classify ks mb = None ->
+  uid_search_cmd (tag :: uid :: cmd :: Model.CmdTokenizer.split_command_line (print_prog ks)) (to_msgs mb) = ROk (spec_uid_search_list ks mb).
 Proof. exact uid_search_cmd_exact. Qed.
 Print Assumptions c19_uid_search_cmd_exact.
 
@@ -146,13 +144,14 @@ Example c19_text_keys_repaired :
   /\ sent_date fold_msg = Some (2006, 1, 3).
 Proof. exact text_keys_repaired. Qed.
 
-Theorem c19_refuted_sent_date_tab : refutes CSentDateTab [KDate true COn (S_ "2", 1, S_ "2006")] tab_mb
-  /\ sent_date (s_text (hd (mk_smsg 0 [] [] (0,0,0)) tab_mb)) = Some (2006, 1, 2).
-Proof. exact refuted_sent_date_tab. Qed.
-Print Assumptions c19_refuted_sent_date_tab.
-Theorem c19_refuted_quoted_space : exists ks mb, refutes CQuotedSpace ks mb.
-Proof. exact refuted_quoted_space. Qed.
-Print Assumptions c19_refuted_quoted_space.
+(** repaired by 2599345 (SplitCommandLine keeps quoted strings whole) and by "a Date:
+    field folded with a tab": the former quoted_space / sent_date_htab witnesses *)
+Example c19_line_repaired :
+  search_line [KDate true COn (S_ "2", 1, S_ "2006")] tab_mb = ROk [1]
+  /\ search_line [KHdr HSubject (S_ "Hello  World")] wit_mb = ROk [1]
+  /\ search_line [KGroup [KHdr HSubject (S_ "Hello  World"); KNot (KText ([tab] ++ S_ " x"))]] wit_mb = ROk [1]
+  /\ Model.CmdTokenizer.split_command_line (print_prog [KGroup [KHdr HSubject (S_ "a  b")]]) = [S_ "(SUBJECT"; S_ """a  b"")"].
+Proof. exact line_repaired. Qed.
 (** repaired by "UID SEARCH runs the SEARCH evaluator": the former witnesses of
     uid_search_ignores_keys / uid_search_single meet the specification *)
 Example c19_uid_search_repaired :
@@ -167,7 +166,7 @@ Proof. exact uid_search_repaired. Qed.
     witness is answered "no match" ... *)
 Example c19_or_panic_repaired :
   search (to_msgs wit_mb) (S_ "OR FROM x") = Some []
-  /\ search_cmd (t_ :: S_ "SEARCH" :: fields (S_ "OR FROM x")) (to_msgs wit_mb) = ROk [].
+  /\ search_cmd (t_ :: S_ "SEARCH" :: Model.CmdTokenizer.split_command_line (S_ "OR FROM x")) (to_msgs wit_mb) = ROk [].
 Proof. exact or_panic_repaired. Qed.
 
 (** date keys disregard time and zone: the calendar date as written in the
@@ -201,7 +200,7 @@ Definition ex_prog : list key :=
     KLarger (S_ "10"); KText (S_ "body t") ].
 Example c19_fragment_example :
   wf_prog ex_prog = true /\ mb_ok wit_mb = true /\ classify_line ex_prog wit_mb = None
-  /\ str_eqb (to_upper (nth 0 (fields (print_prog ex_prog)) [])) (S_ "CHARSET") = false
+  /\ str_eqb (to_upper (nth 0 (Model.CmdTokenizer.split_command_line (print_prog ex_prog)) [])) (S_ "CHARSET") = false
   /\ print_prog ex_prog = S_ "NOT SEEN OR 2:3 KEYWORD work UID 1:9 SINCE 1-Jan-2020 LARGER 10 TEXT ""body t"""
   /\ spec_search_list ex_prog wit_mb = [2; 3].
 Proof. vm_compute. repeat split; reflexivity. Qed.
